@@ -187,6 +187,17 @@ def run(ctx, info):
                   "bounds, weighted multi-objective) x objectives (smooth, plateaus, constant, negative) x min/max x (cycles, population) in {(1,1x),(2,1.5x),(3,1x),(5,2x),(10,1x)} "
                   "x stop options, sampled thread/process runs; a returned result must be complete", [jobs[0], jobs[-1]])
     ctx.coverage["census_continuous"] = {"jobs": len(jobs), "completed": n_ok, "families": dict(fams), "failure_keys": dict(tab)}
+    # 4b. the source-directed campaign (pv/hot.py): degenerate populations that arise late in a run, dimension 1, dimension = population size ... for optimizers whose
+    #     package changed since the pinned tree (thorough: all 84, once) - strict as the census: a failure part-way is a violation, keyed as above
+    from .. import hot
+    changed = hot.changed_sources(info)
+    hjobs = [j for j in hot.jobs(ctx, changed if ctx.quick else sorted(set(names) | set(changed)), reps=(3 if ctx.quick else 1))
+             if j["family"] not in ("hot:onemax", "hot:perm", "hot:small-discrete")]           # continuous tasks only: integer-coded ones are judged per pair against the baseline (5.)
+    if hjobs:
+        hobs = search.run_jobs(hjobs, procs=16)
+        h_ok, htab = decide_cont(ctx, hobs)
+        ctx.coverage["campaign"] = {"optimizers": len(changed) if ctx.quick else len(names), "changed_sources": changed, "jobs": len(hjobs), "completed": h_ok, "failure_keys": dict(htab)}
+        ctx.coverage["evaluations"] += len(hjobs)
     # 5. integer-coded tasks per (optimizer, encoding) pair against the committed baseline
     base = set(load_expectations().get("c06_int_works", []))
     ijobs = census.int_jobs(r, names, 2 if ctx.quick else 8)
